@@ -601,6 +601,13 @@ CORPUS_FUZZ = [
     # reverse rest first in a track, after a loop bracket, after the loop point): still a positioned InputError
     ["A o4 c3000000000"], ["A o4 c:3000000000"], ["A o4 c99999999999999999999"], ["A o3000000000 c"], ["A v99999999999999999999 c"],
     ["A l4 c", "A o4 d3000000000 e"], ["A ~c"], ["A o4 ~c d"], ["A o4 [c]2 ~d"], ["A o4 c L ~d"], ["A R8 c"], ["A o4 [c]2 R8"], ["A o4 c L R8"],
+    # key signatures in the per-note form with a letter that is no note (seeded change C17-8: the exception type no longer
+    # matched the handler in mml_transpose and the error lost its position)
+    ["A _{-bz} c"], ["A o4 c _{+z}"], ["A c", "A l8 _{=q} d"], ["A _{+cf-x} c"], ["A k{z} c"], ["A _{-b z} c"], ["AB {c/d} _{-by} e"],
+    # positions beyond 16 bits (seeded change C17-7: InputRef narrowed to uint16_t): a fault behind more than 65536 lines
+    # and at a column beyond 65535, for parse errors and for errors found when the song is validated / converted
+    ["; x"] * 65600 + ["A o4 c ? d"], ["A o4 c"] * 3 + [""] * 65700 + ["A d @77 e"], ["A" + " " * 66000 + "?"],
+    ["A o4 c" + " " * 66000 + "@77 d"],
     ["A o4 r ~c"], ["A o4 c *20 ~d", "*20 e"], ["A \\=1,0 o4 c \\ ^"], ["A \\ c"], ["A o4 c ^3000000000"], ["A t3000000000 c"], ["A [c]3000000000"],
 ]
 
